@@ -37,6 +37,7 @@ type Obligation struct {
 type CoverPoint struct {
 	Guard    string
 	NAssumes int
+	PreAssumes int // assumptions visible before the call
 	What     string
 }
 
